@@ -43,6 +43,11 @@ enum Sub
     A_FILL,
     A_ASSIGN_STRING,
     A_ITER,
+    A_RAW_ITER,  // every element through the view returned by raw()
+    A_RAW_WRITE, // re-write the last element through raw()
+    A_REVERSE,   // rbegin()..rend()
+    A_ASSIGN_N,  // assign(count, value) with count = N
+    A_ASSIGN_RANGE,
     // groups
     G_ADDR,
     G_SIZE,
